@@ -5,13 +5,13 @@ import copy, pickle
 import numpy as np
 
 CELLS = {
-    "Promolecule": ("molattr", "molnest", "atomattr", "atomnest", "atomlabel", "natoms"),
-    "Connectivity": ("molattr", "molnest", "atomattr", "atomnest", "atomlabel", "natoms", "bondattr", "bondtype"),
-    "CartesianGeometry": ("molattr", "molnest", "atomattr", "atomnest", "atomlabel", "natoms", "coord"),
-    "Structure": ("molattr", "molnest", "atomattr", "atomnest", "atomlabel", "natoms", "bondattr", "bondtype", "coord"),
-    "Molecule": ("molattr", "molnest", "atomattr", "atomnest", "atomlabel", "natoms", "bondattr", "bondtype", "coord", "chg"),
-    "ConformerEnsemble": ("molattr", "molnest", "atomattr", "atomnest", "atomlabel", "bondattr", "bondtype", "coord", "chg", "weight"),
-    "Conformer": ("molattr", "molnest", "atomattr", "atomnest", "atomlabel", "bondattr", "bondtype", "coord", "chg"),
+    "Promolecule": ("molattr", "molnest", "atomattr", "atomattr_e", "atomnest", "atomlabel", "natoms"),
+    "Connectivity": ("molattr", "molnest", "atomattr", "atomattr_e", "atomnest", "atomlabel", "natoms", "bondattr", "bondattr_e", "bondtype"),
+    "CartesianGeometry": ("molattr", "molnest", "atomattr", "atomattr_e", "atomnest", "atomlabel", "natoms", "coord"),
+    "Structure": ("molattr", "molnest", "atomattr", "atomattr_e", "atomnest", "atomlabel", "natoms", "bondattr", "bondattr_e", "bondtype", "coord"),
+    "Molecule": ("molattr", "molnest", "atomattr", "atomattr_e", "atomnest", "atomlabel", "natoms", "bondattr", "bondattr_e", "bondtype", "coord", "chg"),
+    "ConformerEnsemble": ("molattr", "molnest", "atomattr", "atomattr_e", "atomnest", "atomlabel", "bondattr", "bondattr_e", "bondtype", "coord", "chg", "weight"),
+    "Conformer": ("molattr", "molnest", "atomattr", "atomattr_e", "atomnest", "atomlabel", "bondattr", "bondattr_e", "bondtype", "coord", "chg"),
 }
 BT = None
 
@@ -24,7 +24,7 @@ def _bt():
 def make(kind):
     import molli as ml
     atoms = [ml.Atom("C", label="C1"), ml.Atom("O", label="O2"), ml.Atom("H", label="H3")]
-    for a in atoms:
+    for a in (atoms[0], atoms[2]):           # atoms[1] keeps an EMPTY attribute dict (cell atomattr_e)
         a.attrib["k"] = 0
         a.attrib["nest"] = {"x": 0}
     coords = np.array([[0.0, 0.0, 0.0], [1.2, 0.0, 0.0], [-0.5, 0.9, 0.0]])
@@ -41,10 +41,11 @@ def make(kind):
     else:
         raise AssertionError(kind)
     if hasattr(o, "connect"):
-        for i, j in ((0, 1), (0, 2)):
+        for n_, (i, j) in enumerate(((0, 1), (0, 2))):
             b = o.connect(i, j)
-            b.attrib["k"] = 0
-            b.attrib["nest"] = {"x": 0}
+            if n_ == 0:                          # the second bond keeps an EMPTY attribute dict (cell bondattr_e)
+                b.attrib["k"] = 0
+                b.attrib["nest"] = {"x": 0}
     o.attrib["k"] = 0
     o.attrib["nest"] = {"x": 0}
     if kind == "ConformerEnsemble":
@@ -56,7 +57,7 @@ def make(kind):
         e.weights[:] = [0.75, 0.25]
         e.attrib["k"] = 0
         e.attrib["nest"] = {"x": 0}
-        for x in list(e.atoms) + list(e.bonds):
+        for x in (e.atoms[0], e.atoms[2], e.bonds[0]):
             x.attrib["k"] = 0
             x.attrib["nest"] = {"x": 0}
         return e
@@ -69,11 +70,15 @@ def mutate(o, cell):
     if cell == "molattr":
         o.attrib["k"] = o.attrib.get("k", 0) + 1
     elif cell == "molnest":
-        o.attrib["nest"]["x"] += 1
+        o.attrib.setdefault("nest", {"x": 0})["x"] += 1      # (a concatenation product starts without object-level attributes)
     elif cell == "atomattr":
         o.atoms[0].attrib["k"] = o.atoms[0].attrib.get("k", 0) + 1
+    elif cell == "atomattr_e":
+        o.atoms[1].attrib["k"] = o.atoms[1].attrib.get("k", 0) + 1
+    elif cell == "bondattr_e":
+        o.bonds[1].attrib["k"] = o.bonds[1].attrib.get("k", 0) + 1
     elif cell == "atomnest":
-        o.atoms[0].attrib["nest"]["x"] += 1
+        o.atoms[0].attrib.setdefault("nest", {"x": 0})["x"] += 1
     elif cell == "atomlabel":
         o.atoms[0].label = (o.atoms[0].label or "") + "+"
     elif cell == "bondattr":
@@ -133,6 +138,10 @@ def counters(o, kind, n0=3, base=None):
                 v = o.attrib.get("nest", {}).get("x", 0)
             elif cell == "atomattr":
                 v = o.atoms[0].attrib.get("k", "missing")
+            elif cell == "atomattr_e":
+                v = o.atoms[1].attrib.get("k", 0)
+            elif cell == "bondattr_e":
+                v = o.bonds[1].attrib.get("k", 0)
             elif cell == "atomnest":
                 v = o.atoms[0].attrib.get("nest", {}).get("x", "missing")
             elif cell == "atomlabel":
